@@ -16,14 +16,19 @@ int main (int argc, char **argv) {
   sexp_eval_string(ctx, "(define (deep2 n acc) (if (= n 0) acc (let ((r (deep2 (- n 1) (cons n acc)))) (cdr r))))", -1, NULL);
   sexp_eval_string(ctx, "(define (deep3 n) (if (= n 0) 0 (+ 1 (apply deep3 (list (- n 1))))))", -1, NULL);
   sexp_eval_string(ctx, "(define (deep4 n . r) (if (= n 0) (length r) (+ 1 (apply deep4 (- n 1) r))))", -1, NULL);
+  sexp_eval_string(ctx, "(define (f5 . xs) (length xs))", -1, NULL);
+  sexp_eval_string(ctx, "(define (deep5 n l) (if (= n 0) (apply f5 l) (+ 1 (deep5 (- n 1) l))))", -1, NULL);
   for (i = 1; i < argc; i++) {
     long d = atol(argv[i]); int which = d < 0; long depth = which ? -d : d;
     /* depths 3000000+k: recursion of depth k through apply; 4000000+k: through apply with a 100-element rest list */
-    if (d >= 4000000 && d < 5000000) { which = 3; depth = d - 4000000; }
+    long wide = 0;   /* 5000000+k: a call spreading a k-thousand element list (apply) under 50 frames */
+    if (d >= 5000000 && d < 6000000) { which = 4; wide = (d - 5000000) * 1000; depth = 50; }
+    else if (d >= 4000000 && d < 5000000) { which = 3; depth = d - 4000000; }
     else if (d >= 3000000 && d < 4000000) { which = 2; depth = d - 3000000; }
     long unit = depth > 30000 ? 1000 : 1;
     sexp probe; int valok = 0, isval, probeok;
-    if (which == 2) snprintf(buf, sizeof(buf), "(deep3 %ld)", depth);
+    if (which == 4) snprintf(buf, sizeof(buf), "(- (deep5 %ld (make-list %ld 1)) %ld)", depth, wide, wide);
+    else if (which == 2) snprintf(buf, sizeof(buf), "(deep3 %ld)", depth);
     else if (which == 3) snprintf(buf, sizeof(buf), "(- (apply deep4 %ld (make-list 100 1)) 100)", depth);
     else snprintf(buf, sizeof(buf), which ? "(length (cons 0 (deep2 %ld '())))" : "(deep %ld)", depth);
     res = sexp_eval_string(ctx, buf, -1, NULL);
@@ -31,8 +36,8 @@ int main (int argc, char **argv) {
     if (isval && sexp_fixnump(res)) valok = (which == 1) ? (sexp_unbox_fixnum(res) == 1) : (sexp_unbox_fixnum(res) == depth);
     probe = sexp_eval_string(ctx, "(let loop ((i 0) (a '())) (if (< i 100) (loop (+ i 1) (cons i a)) (apply + a)))", -1, NULL);
     probeok = sexp_fixnump(probe) && sexp_unbox_fixnum(probe) == 4950;
-    printf("{\"e\":\"Deep\",\"d\":%ld,\"unit\":%ld,\"fn\":%d,\"outcome\":\"%s\",\"valok\":%d,\"probe\":%d,\"len\":%ld}\n",
-           depth / unit, unit, which, isval ? "value" : "error", valok, probeok, (long)sexp_stack_length(sexp_context_stack(ctx)));
+    printf("{\"e\":\"Deep\",\"d\":%ld,\"unit\":%ld,\"fn\":%d,\"outcome\":\"%s\",\"valok\":%d,\"probe\":%d,\"len\":%ld,\"w\":%ld}\n",
+           depth / unit, unit, which, isval ? "value" : "error", valok, probeok, (long)sexp_stack_length(sexp_context_stack(ctx)), wide / 1000);
     fflush(stdout);
   }
   sexp_destroy_context(ctx);
